@@ -7,6 +7,7 @@ use crate::engine::CaseOut;
 use crate::gen::{Built, Feats};
 use crate::model::*;
 use crate::real::*;
+use crate::device::Palette;
 use crate::ri::*;
 
 /// Load (parse + bind) a text that the generator built to be well-formed and fitting.
@@ -18,7 +19,20 @@ pub fn load_wellformed(out: &mut CaseOut, prefix: &str, text: &str, sigs: &[Sig]
     let owns_parse = prefix == "c01";
     let owns_bind = prefix == "c01" || prefix == "c06";
     match load(text, sigs) {
-        Ok(tc) => Some(tc),
+        Ok(tc) => {
+            // One loaded test in four (chosen by its text) has been used before: another iterator, over a driver that lists
+            // every output in reverse order and answers with its own values, ran two steps and was dropped. A TestCase's
+            // behaviour is a function of text, signal list and the responses of the driver at hand - nothing an earlier
+            // driver showed may stick to it, whatever property is being looked at.
+            let h = text.bytes().fold(0xcbf29ce484222325u64, |h, b| (h ^ b as u64).wrapping_mul(0x100000001b3));
+            if (h >> 7) % 4 == 0 {
+                out.class("testcase-used-before-by-another-driver");
+                let mut pre = DriverSpec::honest(sigs, h, Palette::Small);
+                pre.layout.reverse();
+                let _ = run_real(&tc, sigs, &pre, &RunOpts { max_next: 2, ..Default::default() });
+            }
+            Some(tc)
+        }
         Err(LoadErr::Panic(p)) => {
             out.fail(p.key(), format!("loading a well-formed test panicked: {p}"));
             None
